@@ -26,6 +26,12 @@ class SymArr(np.ndarray):
     @property
     def dtype(self): return self.sdt          # what the code under analysis sees (byteorder, kind, itemsize); storage stays object
 
+    def astype(self, dt, *a, **k):
+        dt = np.dtype(dt)
+        if dt == object: return np.asarray(self, dtype=object)
+        if dt.itemsize == self.sdt.itemsize and dt.kind == self.sdt.kind: return SymArr(np.asarray(self, dtype=object), dt)      # same values, other byte order
+        raise NotImplementedError(f'astype {self.sdt} -> {dt}')
+
     def byteswap(self, inplace=False):
         assert not inplace
         n = self.sdt.itemsize
@@ -48,8 +54,10 @@ class SymArr(np.ndarray):
             out = np.empty(flat_shape[:-1] + (flat_shape[-1] * self.sdt.itemsize,), dtype=object)
             for idx in np.ndindex(flat_shape):
                 x = bvw(np.ndarray.__getitem__(self, idx), w)
-                for b in range(self.sdt.itemsize):
-                    out[idx[:-1] + (idx[-1] * self.sdt.itemsize + b,)] = z3.simplify(z3.Extract(8 * b + 7, 8 * b, x))
+                n = self.sdt.itemsize
+                for b in range(n):
+                    bb = n - 1 - b if self.sdt.byteorder == '>' else b          # big-endian storage: most significant byte first
+                    out[idx[:-1] + (idx[-1] * n + b,)] = z3.simplify(z3.Extract(8 * bb + 7, 8 * bb, x))
             return SymArr(out, dt)
         if self.sdt.itemsize == 1 and dt.itemsize > 1:        # combine bytes, last axis shrinks
             k_ = dt.itemsize
@@ -57,6 +65,7 @@ class SymArr(np.ndarray):
             out = np.empty(flat_shape[:-1] + (flat_shape[-1] // k_,), dtype=object)
             for idx in np.ndindex(out.shape):
                 bs = [bvw(np.ndarray.__getitem__(self, idx[:-1] + (idx[-1] * k_ + b,)), 8) for b in range(k_)]
+                if dt.byteorder == '>': bs = bs[::-1]
                 out[idx] = z3.simplify(z3.Concat(*reversed(bs)))
             return SymArr(out, dt)
         raise NotImplementedError(f'view {self.sdt} -> {dt}')
@@ -137,7 +146,7 @@ def selfcheck(shapes, rng):
                 sb = SymArr(np.vectorize(lambda v: z3.BitVecVal(int(v), 1), otypes=[object])(bits), np.uint8)
                 r = np.packbits(bits, axis=axis, bitorder=order); s_ = snp.packbits(sb, axis=axis, bitorder=order)
                 if r.shape != s_.shape or not np.array_equal(r, val(s_).astype(np.uint8)): probs.append(f'packbits shape={shp} axis={axis} {order}')
-    for dt in (np.uint16, np.int16, np.uint32, np.int32, np.uint64, np.int64, np.int8):
+    for dt in (np.uint16, np.int16, np.uint32, np.int32, np.uint64, np.int64, np.int8, '>u2', '>i4', '>u8'):
         data = rng.integers(0, 200, (2, 3)).astype(dt)
         w = 8 * np.dtype(dt).itemsize
         sa = SymArr(np.vectorize(lambda v: z3.BitVecVal(int(v), w), otypes=[object])(data), dt)
@@ -145,6 +154,9 @@ def selfcheck(shapes, rng):
         if r.shape != s_.shape or not np.array_equal(r, val(s_).astype(np.uint8)): probs.append(f'view {dt}->uint8')
         r = data.byteswap(); s2 = sa.byteswap()
         if [int(v) % (1 << w) for v in r.reshape(-1)] != [int(v) for v in val(s2).reshape(-1)] or sa.dtype != data.dtype: probs.append(f'byteswap {dt}')
+        odt = data.dtype.newbyteorder('>' if data.dtype.byteorder != '>' else '<')
+        r = data.astype(odt); s3 = sa.astype(odt)
+        if [int(v) % (1 << w) for v in r.reshape(-1)] != [int(v) for v in val(s3).reshape(-1)] or not np.array_equal(r.view(np.uint8), val(s3.view(np.uint8)).astype(np.uint8)): probs.append(f'astype {dt} -> {odt}')
         back = s_.view(dt)
         if back.shape != data.shape or [int(v) % (1 << w) for v in data.reshape(-1)] != [int(v) % (1 << w) for v in val(back).reshape(-1)]: probs.append(f'view uint8->{dt}')
     return probs
